@@ -8,7 +8,7 @@ ROOT = os.path.dirname(os.path.dirname(os.path.abspath(__file__)))
 CLAIMED = {
     "C01": ("batch", "differential PBT: rapid-generated grammars+inputs, real generated parsers vs. reference PEG interpreter",
             "Bounded generated search: rapid draws well-formed grammars (all pure expression kinds, nested) and inputs; every grammar is compiled by the real pigeon under two flag sets and each Parse result (success, consumed prefix, deep value shape) is compared with an independent reference interpreter. Exploration is the right level: the property quantifies over grammars x inputs x flags, which only sampling with a strong oracle reaches.",
-            "Trusted: the reference interpreter refpeg (independent of pigeon), the Go toolchain. Bounds: grammars <= ~60 nodes plus, one in ten, big entry rules (66-258 alternatives / items, literals up to 4200 bytes, chains of 70-300 rules); inputs <= 48 bytes plus, one in 150, 300-9000 bytes.", "DESIGN.md 3/C01"),
+            "Trusted: the reference interpreter refpeg (independent of pigeon), the Go toolchain. Bounds: grammars <= ~60 nodes plus, one in ten, big entry rules (66-258 alternatives / items, literals up to 4200 bytes, chains of 66-130 rules); inputs <= 48 bytes plus, one in 150, 300-9000 bytes.", "DESIGN.md 3/C01"),
     "C02": ("batch", "differential PBT: complete code-block event traces of generated parsers vs. reference interpreter",
             "Bounded generated search over grammars with labels/actions/predicates/state blocks at every nesting level and inputs biased to newlines and multi-byte runes; the complete ordered event trace (text, pos, labels, predicate answers) of every real parse is compared with the reference trace.",
             "Trusted: refpeg, the recorder vrt. Known finding KF-C02-STALECTX is tolerated field-wise (exact stale pattern only) and counted.", "DESIGN.md 3/C02"),
